@@ -106,57 +106,68 @@ fn resolve_id(r: &IdRef) -> i32 {
 }
 
 /// Run one operation to completion and canonicalise its value.
+pub type HelperRec = (u32, bool, bool, Option<Option<bool>>);
+
+fn helpers_res(r: &LdapResult) -> HelperRec {
+    (r.rc, r.clone().success().is_ok(), r.clone().non_error().is_ok(), None)
+}
+
 pub async fn run_op(ldap: &mut Ldap, op: &OpSpec) -> Ret {
+    run_op_h(ldap, op).await.0
+}
+
+/// Run one operation; also evaluate the documented helper methods on the returned value.
+pub async fn run_op_h(ldap: &mut Ldap, op: &OpSpec) -> (Ret, Option<HelperRec>) {
     match op {
         OpSpec::SimpleBind { dn, pw } => match ldap.simple_bind(dn, pw).await {
-            Ok(r) => Ret::Res(res_c(&r)),
-            Err(e) => Ret::Err(err_c(&e)),
+            Ok(r) => (Ret::Res(res_c(&r)), Some(helpers_res(&r))),
+            Err(e) => (Ret::Err(err_c(&e)), None),
         },
         OpSpec::SaslExternal => match ldap.sasl_external_bind().await {
-            Ok(r) => Ret::Res(res_c(&r)),
-            Err(e) => Ret::Err(err_c(&e)),
+            Ok(r) => (Ret::Res(res_c(&r)), Some(helpers_res(&r))),
+            Err(e) => (Ret::Err(err_c(&e)), None),
         },
         OpSpec::Search(s) => match ldap.search(&s.base, scope_of(s.scope), &s.filter_str, s.attrs.clone()).await {
-            Ok(r) => Ret::Search { entries: r.0.iter().map(item_c).collect(), res: res_c(&r.1) },
-            Err(e) => Ret::Err(err_c(&e)),
+            Ok(r) => (Ret::Search { entries: r.0.iter().map(item_c).collect(), res: res_c(&r.1) }, Some((r.1.rc, r.clone().success().is_ok(), r.clone().non_error().is_ok(), None))),
+            Err(e) => (Ret::Err(err_c(&e)), None),
         },
         OpSpec::Add { dn, attrs } => {
             let a: Vec<(Vec<u8>, HashSet<Vec<u8>>)> = attrs.iter().map(|(n, v)| (n.clone(), hs(v))).collect();
             match ldap.add(dn, a).await {
-                Ok(r) => Ret::Res(res_c(&r)),
-                Err(e) => Ret::Err(err_c(&e)),
+                Ok(r) => (Ret::Res(res_c(&r)), Some(helpers_res(&r))),
+                Err(e) => (Ret::Err(err_c(&e)), None),
             }
         }
         OpSpec::Compare { dn, attr, val } => match ldap.compare(dn, attr, val).await {
-            Ok(r) => Ret::Cmp(res_c(&r.0)),
-            Err(e) => Ret::Err(err_c(&e)),
+            Ok(r) => (Ret::Cmp(res_c(&r.0)), Some((r.0.rc, false, r.clone().non_error().is_ok(), Some(r.clone().equal().ok())))),
+            Err(e) => (Ret::Err(err_c(&e)), None),
         },
         OpSpec::Delete { dn } => match ldap.delete(dn).await {
-            Ok(r) => Ret::Res(res_c(&r)),
-            Err(e) => Ret::Err(err_c(&e)),
+            Ok(r) => (Ret::Res(res_c(&r)), Some(helpers_res(&r))),
+            Err(e) => (Ret::Err(err_c(&e)), None),
         },
         OpSpec::Modify { dn, mods } => match ldap.modify(dn, mods_of(mods)).await {
-            Ok(r) => Ret::Res(res_c(&r)),
-            Err(e) => Ret::Err(err_c(&e)),
+            Ok(r) => (Ret::Res(res_c(&r)), Some(helpers_res(&r))),
+            Err(e) => (Ret::Err(err_c(&e)), None),
         },
         OpSpec::ModifyDn { dn, rdn, delete_old, new_sup } => match ldap.modifydn(dn, rdn, *delete_old, new_sup.as_deref()).await {
-            Ok(r) => Ret::Res(res_c(&r)),
-            Err(e) => Ret::Err(err_c(&e)),
+            Ok(r) => (Ret::Res(res_c(&r)), Some(helpers_res(&r))),
+            Err(e) => (Ret::Err(err_c(&e)), None),
         },
         OpSpec::Extended { oid, val } => match ldap.extended(Exop { name: Some(oid.clone()), val: val.clone() }).await {
-            Ok(r) => Ret::Exop { name: r.0.name.clone(), val: r.0.val.clone(), res: res_c(&r.1) },
-            Err(e) => Ret::Err(err_c(&e)),
+            Ok(r) => (Ret::Exop { name: r.0.name.clone(), val: r.0.val.clone(), res: res_c(&r.1) }, Some((r.1.rc, r.clone().success().is_ok(), r.clone().non_error().is_ok(), None))),
+            Err(e) => (Ret::Err(err_c(&e)), None),
         },
         OpSpec::Abandon(r) => {
             let id = resolve_id(r);
             match ldap.abandon(id).await {
-                Ok(()) => Ret::Unit,
-                Err(e) => Ret::Err(err_c(&e)),
+                Ok(()) => (Ret::Unit, None),
+                Err(e) => (Ret::Err(err_c(&e)), None),
             }
         }
         OpSpec::Unbind => match ldap.unbind().await {
-            Ok(()) => Ret::Unit,
-            Err(e) => Ret::Err(err_c(&e)),
+            Ok(()) => (Ret::Unit, None),
+            Err(e) => (Ret::Err(err_c(&e)), None),
         },
     }
 }
@@ -262,10 +273,13 @@ pub async fn run_client(client: usize, script: ClientScript, ldap: Ldap, opts: C
                 };
                 apply_mods(l, mods);
                 world::ev(EvKind::Invoke { client, step: ix, token: token.clone(), what: format!("{:?}", op_kind(op)) });
-                let ret = match Driven::new(run_op(l, op), *cancel_after_polls, client, ix, opts.alloc_snap).await {
+                let (ret, helpers) = match Driven::new(run_op_h(l, op), *cancel_after_polls, client, ix, opts.alloc_snap).await {
                     Some(r) => r,
-                    None => Ret::Cancelled,
+                    None => (Ret::Cancelled, None),
                 };
+                if let Some((rc, success, non_error, equal)) = helpers {
+                    world::ev(EvKind::Helpers { client, step: ix, rc, success, non_error, equal });
+                }
                 let last_id = if matches!(op, OpSpec::Search(_)) { 0 } else { l.last_id() };
                 world::with(|w| {
                     if last_id != 0 {
